@@ -231,6 +231,37 @@ func (env *Env) ident(name string) Term {
 			return t
 		}
 	}
+	// a local of the function under verification whose definition has not been executed yet on this
+	// path (e.g. a postcondition checked at an early return): any value of its type
+	if env.e != nil && env.e.top && !env.noLocals && env.e.fn != nil {
+		for _, b := range env.e.fn.Blocks {
+			for _, ins := range b.Instrs {
+				dr, ok := ins.(*ssa.DebugRef)
+				if !ok || dr.IsAddr {
+					continue
+				}
+				id, isID := dr.Expr.(*ast.Ident)
+				if !isID || id.Name != name {
+					continue
+				}
+				if v, isVar := dr.Object().(*types.Var); !isVar || v.IsField() || (v.Pkg() != nil && v.Parent() == v.Pkg().Scope()) {
+					continue
+				}
+				k := "undef:" + name
+				if t, ok := env.e.undefLocals[k]; ok {
+					return t
+				}
+				ty := dr.X.Type()
+				so := env.u().sortOf(ty)
+				t := mk(env.e.vc.fresh("undef_"+name, string(so)), so, ty)
+				if env.e.undefLocals == nil {
+					env.e.undefLocals = map[string]Term{}
+				}
+				env.e.undefLocals[k] = t
+				return t
+			}
+		}
+	}
 	// package-level object
 	if env.pkg != nil {
 		return env.pkgMember(env.pkg, name)
